@@ -12,6 +12,7 @@ import (
 	"bytes"
 	"encoding/binary"
 	"encoding/hex"
+	"encoding/json"
 	"fmt"
 	"math/big"
 	"os"
@@ -231,9 +232,10 @@ func c25collect(syms []interface{}, w int) []interface{} {
 // ---- round trip -----------------------------------------------------------
 
 type c25case struct {
-	Value string `json:"value,omitempty"`
-	Bytes string `json:"bytes,omitempty"`
-	API   string `json:"api,omitempty"`
+	Value   string `json:"value,omitempty"`
+	Bytes   string `json:"bytes,omitempty"`
+	API     string `json:"api,omitempty"`
+	Comment string `json:"comment,omitempty"`
 }
 
 func c25typeClass(v interface{}) string {
@@ -313,17 +315,25 @@ func c25roundtrip(r *vh.Run, v interface{}, name string) {
 // ---- decoding arbitrary bytes --------------------------------------------
 
 type c25acc struct {
-	r       *vh.Run
 	evals   int64
 	classes map[string]int64
+	viol    func(key string, c c25case, detail string)
 }
 
-func (a *c25acc) flush() {
-	a.r.Eval(a.evals)
+func c25newAcc(r *vh.Run) *c25acc {
+	return &c25acc{classes: map[string]int64{}, viol: func(key string, c c25case, detail string) { r.Violation(key, detail, c) }}
+}
+
+func (a *c25acc) flush(r *vh.Run) {
+	r.Eval(a.evals)
 	for k, n := range a.classes {
-		a.r.ClassN(k, n)
+		r.ClassN(k, n)
 	}
 	a.evals, a.classes = 0, map[string]int64{}
+}
+
+func (a *c25acc) Violationf(key string, c c25case, f string, args ...interface{}) {
+	a.viol(key, c, fmt.Sprintf(f, args...))
 }
 
 func c25tryDecode(data []byte) (v interface{}, err error, used uint64, p string) {
@@ -357,12 +367,12 @@ func c25decode(a *c25acc, data []byte, origin string) {
 	a.evals++
 	v, err, used, p := c25tryDecode(data)
 	if p != "" {
-		a.r.Violationf("decode:panic:"+origin, c25case{Bytes: vh.Hex(data)}, "DecodeValue(%x) panicked: %s", data, p)
+		a.Violationf("decode:panic:"+origin, c25case{Bytes: vh.Hex(data)}, "DecodeValue(%x) panicked: %s", data, p)
 		return
 	}
 	if err != nil {
 		if v != nil {
-			a.r.Violationf("decode:value-and-error:"+origin, c25case{Bytes: vh.Hex(data)}, "DecodeValue(%x) returned both a value and %v", data, err)
+			a.Violationf("decode:value-and-error:"+origin, c25case{Bytes: vh.Hex(data)}, "DecodeValue(%x) returned both a value and %v", data, err)
 		}
 		a.classes["decode:err:"+c25errClass(err)]++
 		return
@@ -372,7 +382,7 @@ func c25decode(a *c25acc, data []byte, origin string) {
 	p = vh.Catch(func() {
 		enc, err := EncodeValue(v)
 		if err != nil {
-			a.r.Violationf("reencode:error:"+tc, c25case{Bytes: vh.Hex(data)}, "value %s decoded from %x cannot be encoded: %v", c25show(v), data, err)
+			a.Violationf("reencode:error:"+tc, c25case{Bytes: vh.Hex(data)}, "value %s decoded from %x cannot be encoded: %v", c25show(v), data, err)
 			return
 		}
 		if bytes.Equal(enc, data[:used]) {
@@ -382,11 +392,11 @@ func c25decode(a *c25acc, data []byte, origin string) {
 		}
 		back, err := DecodeValue(common.NewZeroCopySource(enc))
 		if err != nil || !c25eq(v, back) {
-			a.r.Violationf("reencode:not-equal:"+tc, c25case{Bytes: vh.Hex(data)}, "value %s decoded from %x does not survive Encode->Decode (%s, %v)", c25show(v), data, c25show(back), err)
+			a.Violationf("reencode:not-equal:"+tc, c25case{Bytes: vh.Hex(data)}, "value %s decoded from %x does not survive Encode->Decode (%s, %v)", c25show(v), data, c25show(back), err)
 		}
 	})
 	if p != "" {
-		a.r.Violationf("reencode:panic:"+tc, c25case{Bytes: vh.Hex(data)}, "re-encoding the value decoded from %x panicked: %s", data, p)
+		a.Violationf("reencode:panic:"+tc, c25case{Bytes: vh.Hex(data)}, "re-encoding the value decoded from %x panicked: %s", data, p)
 	}
 }
 
@@ -401,7 +411,7 @@ func c25framed(a *c25acc, data []byte) {
 			wantV, wantErr, _, _ = c25tryDecode(data[1:])
 		}
 		if (err != nil) != (wantErr != nil) || (err == nil && !c25eq(v, wantV)) {
-			a.r.Violationf("callparam:disagrees-with-decode", c25case{Bytes: vh.Hex(data), API: "DeserializeCallParam"},
+			a.Violationf("callparam:disagrees-with-decode", c25case{Bytes: vh.Hex(data), API: "DeserializeCallParam"},
 				"DeserializeCallParam(%x) = %s, %v but DecodeValue of the body gives %s, %v", data, c25show(v), err, c25show(wantV), wantErr)
 		}
 		if err == nil {
@@ -417,7 +427,7 @@ func c25framed(a *c25acc, data []byte) {
 		}
 	})
 	if p != "" {
-		a.r.Violationf("framed:panic", c25case{Bytes: vh.Hex(data)}, "DeserializeCallParam/DeserializeNotify(%x) panicked: %s", data, p)
+		a.Violationf("framed:panic", c25case{Bytes: vh.Hex(data)}, "DeserializeCallParam/DeserializeNotify(%x) panicked: %s", data, p)
 	}
 }
 
@@ -487,21 +497,73 @@ func c25allocCases() []c25allocCase {
 // allowed allocation: a constant plus a multiple of the input length
 func c25allocBound(inputLen int) uint64 { return 64<<10 + 256*uint64(inputLen) }
 
+// The worker runs (under a 3 GB address-space limit) everything that feeds
+// claimed sizes to the decoder: the allocation cases, and every single-byte
+// mutation / size-field substitution / truncation of the valid encodings.
+// Protocol on stdout: "C25W START <hex>" before an input (or a batch derived
+// from it), JSON lines {"viol":...} as they happen, one final {"done":...}.
+type c25wviol struct {
+	Key    string  `json:"key"`
+	Detail string  `json:"detail"`
+	Case   c25case `json:"case"`
+}
+
+type c25wline struct {
+	Viol    *c25wviol        `json:"viol,omitempty"`
+	Done    bool             `json:"done,omitempty"`
+	Evals   int64            `json:"evals,omitempty"`
+	Classes map[string]int64 `json:"classes,omitempty"`
+}
+
+func c25shape(name string) string {
+	if j := strings.IndexByte(name, ':'); j >= 0 {
+		name = name[:j]
+	}
+	if j := strings.LastIndexByte(name, '-'); j >= 0 && strings.Contains(name, "claim") {
+		name = name[:j]
+	}
+	return name
+}
+
 func TestVerif_C25_Worker(t *testing.T) {
-	if os.Getenv("VERIF_C25_WORK") == "" {
+	spec := os.Getenv("VERIF_C25_WORK")
+	if spec == "" {
 		t.Skip("worker entry point of TestVerif_C25")
+	}
+	var shard, nshards int
+	fmt.Sscanf(spec, "%d/%d", &shard, &nshards)
+	if nshards < 1 {
+		nshards = 1
 	}
 	lim := syscall.Rlimit{Cur: 3 << 30, Max: 3 << 30}
 	syscall.Setrlimit(syscall.RLIMIT_AS, &lim)
 	log.InitLog(log.MaxLevelLog)
 	out := bufio.NewWriter(os.Stdout)
-	say := func(f string, a ...interface{}) { fmt.Fprintf(out, f, a...); out.Flush() }
-	for i, c := range c25allocCases() {
+	emit := func(l c25wline) {
+		b, _ := json.Marshal(&l)
+		out.Write(append(append([]byte("C25W "), b...), '\n'))
+		out.Flush()
+	}
+	start := func(data []byte) { fmt.Fprintf(out, "C25W START %x\n", data); out.Flush() }
+	a := &c25acc{classes: map[string]int64{}}
+	a.viol = func(key string, c c25case, detail string) { emit(c25wline{Viol: &c25wviol{key, detail, c}}) }
+	alloc := func() uint64 {
+		var m runtime.MemStats
+		runtime.ReadMemStats(&m)
+		return m.TotalAlloc
+	}
+	item := 0
+	mine := func() bool { item++; return item%nshards == shard }
+
+	// (c) claimed sizes with short bodies
+	for _, c := range c25allocCases() {
+		if !mine() {
+			continue
+		}
 		data, _ := hex.DecodeString(c.Hex)
-		say("C25W START %d\n", i)
-		var m0, m1 runtime.MemStats
+		start(data)
 		runtime.GC()
-		runtime.ReadMemStats(&m0)
+		m0 := alloc()
 		res := "err"
 		p := vh.Catch(func() {
 			switch {
@@ -519,17 +581,68 @@ func TestVerif_C25_Worker(t *testing.T) {
 				}
 			}
 		})
-		runtime.ReadMemStats(&m1)
-		if p != "" {
-			res = "panic:" + strings.ReplaceAll(p, "\n", " ")
+		n := alloc() - m0
+		a.evals++
+		switch {
+		case p != "":
+			a.Violationf("alloc:panic:"+c25shape(c.Name), c25case{Bytes: c.Hex}, "%s: decoding panicked: %s", c.Name, p)
+		case n > c25allocBound(len(data)):
+			a.Violationf("alloc:proportional-to-claimed-size:"+c25shape(c.Name), c25case{Bytes: c.Hex},
+				"%s: decoding a %d-byte input allocated %d bytes (allowed %d)", c.Name, len(data), n, c25allocBound(len(data)))
+		default:
+			a.classes["alloc:bounded:"+c25shape(c.Name)+":"+res]++
 		}
-		say("C25W DONE %d %d %s\n", i, m1.TotalAlloc-m0.TotalAlloc, res)
 	}
-	say("C25W END\n")
+
+	// (b2) mutations of valid encodings; allocation is measured per position (all alternatives of that position)
+	for _, enc := range c25corpus() {
+		if !mine() {
+			continue
+		}
+		start(enc)
+		c25decode(a, enc, "valid")
+		c25framed(a, append([]byte{VERSION}, enc...))
+		c25framed(a, append([]byte("evt\x00"), enc...))
+		for _, v := range []byte{1, 2, 0x10, 0xff} { // wrong version byte / wrong notify magic in front of a valid body
+			c25framed(a, append([]byte{v}, enc...))
+		}
+		for _, magic := range []string{"evt\x01", "Evt\x00", "evt", "\x00evt"} {
+			c25framed(a, append([]byte(magic), enc...))
+		}
+		for cut := 0; cut < len(enc); cut++ {
+			c25decode(a, enc[:cut], "truncated")
+			c25framed(a, append([]byte{VERSION}, enc[:cut]...))
+			c25framed(a, append([]byte("evt\x00"), enc[:cut]...))
+		}
+		c25decode(a, append(append([]byte{}, enc...), 0xff), "trailing")
+		m := append([]byte{}, enc...)
+		for pos := range m {
+			start(append(append([]byte{}, m...), byte(pos)))
+			m0, e0 := alloc(), a.evals
+			for x := 1; x < 256; x++ {
+				m[pos] = enc[pos] ^ byte(x)
+				c25decode(a, m, "mutated")
+			}
+			m[pos] = enc[pos]
+			if pos+4 <= len(m) {
+				for _, sz := range []uint32{0, 1, 2, 0x00ffffff, 0x7fffffff, 0x80000000, 0xffffffff} {
+					copy(m[pos:], c25u32(sz))
+					c25decode(a, m, "size-substituted")
+					c25framed(a, append([]byte{VERSION}, m...))
+				}
+				copy(m[pos:], enc[pos:pos+4])
+			}
+			calls := uint64(a.evals - e0)
+			if n := alloc() - m0; n > calls*c25allocBound(len(enc)) {
+				a.Violationf("alloc:proportional-to-claimed-size:mutated-encoding", c25case{Bytes: hex.EncodeToString(enc), API: fmt.Sprintf("position %d", pos)},
+					"decoding the %d single-byte / size-field variants at position %d of %x allocated %d bytes (allowed %d)", calls, pos, enc, n, calls*c25allocBound(len(enc)))
+			}
+		}
+	}
+	emit(c25wline{Done: true, Evals: a.evals, Classes: a.classes})
 }
 
-func c25alloc(r *vh.Run) {
-	cases := c25allocCases()
+func c25worker(r *vh.Run) {
 	bin := os.Getenv("VERIF_BIN")
 	if bin == "" {
 		bin = os.Args[0]
@@ -538,52 +651,37 @@ func c25alloc(r *vh.Run) {
 		bin = a
 	}
 	cmd := exec.Command(bin, "-test.run", "^TestVerif_C25_Worker$", "-test.timeout", "0", "-test.count", "1")
-	cmd.Env = append(os.Environ(), "VERIF_C25_WORK=1", "VERIF_OUT=", "VERIF_REPLAY=", "GOTRACEBACK=none")
+	cmd.Env = append(os.Environ(), fmt.Sprintf("VERIF_C25_WORK=%d/%d", r.R.Shard, r.R.NShards), "VERIF_OUT=", "VERIF_REPLAY=", "GOTRACEBACK=none")
 	var stdout, stderr bytes.Buffer
 	cmd.Stdout, cmd.Stderr = &stdout, &stderr
 	werr := cmd.Run()
-	started, ended := -1, false
-	done := map[int]bool{}
+	last, done := "", false
 	for _, line := range strings.Split(stdout.String(), "\n") {
-		f := strings.Fields(line)
-		if len(f) < 2 || f[0] != "C25W" {
+		if !strings.HasPrefix(line, "C25W ") {
 			continue
 		}
-		switch f[1] {
-		case "START":
-			started, _ = strconv.Atoi(f[2])
-		case "END":
-			ended = true
-		case "DONE":
-			i, _ := strconv.Atoi(f[2])
-			n, _ := strconv.ParseUint(f[3], 10, 64)
-			res := strings.Join(f[4:], " ")
-			done[i] = true
-			c := cases[i]
-			r.Eval(1)
-			kind := c.Name
-			if j := strings.IndexByte(kind, ':'); j >= 0 {
-				kind = kind[:j]
+		line = line[5:]
+		if strings.HasPrefix(line, "START ") {
+			last = line[6:]
+			continue
+		}
+		var l c25wline
+		if json.Unmarshal([]byte(line), &l) != nil {
+			continue
+		}
+		if l.Viol != nil {
+			r.Violation(l.Viol.Key, l.Viol.Detail, l.Viol.Case)
+		}
+		if l.Done {
+			done = true
+			r.Eval(l.Evals)
+			for k, n := range l.Classes {
+				r.ClassN(k, n)
 			}
-			shape := kind
-			if j := strings.LastIndexByte(shape, '-'); j >= 0 && strings.Contains(shape, "claim") {
-				shape = shape[:j]
-			}
-			if strings.HasPrefix(res, "panic") {
-				r.Violationf("alloc:panic:"+shape, c25case{Bytes: c.Hex}, "%s: decoding panicked: %s", c.Name, res)
-				continue
-			}
-			if n > c25allocBound(len(c.Hex)/2) {
-				r.Violationf("alloc:proportional-to-claimed-size:"+shape, c25case{Bytes: c.Hex},
-					"%s: decoding a %d-byte input allocated %d bytes (allowed %d)", c.Name, len(c.Hex)/2, n, c25allocBound(len(c.Hex)/2))
-				continue
-			}
-			r.Class("alloc:bounded:" + shape + ":" + res)
 		}
 	}
-	if !ended {
-		r.Need(started >= 0, "allocation worker did not start: %v %s", werr, stderr.String())
-		c := cases[started]
+	if !done {
+		r.Need(last != "", "decoder worker did not start: %v %s", werr, stderr.String())
 		msg := stderr.String()
 		if i := strings.Index(msg, "fatal error:"); i >= 0 {
 			msg = msg[i:]
@@ -591,16 +689,10 @@ func c25alloc(r *vh.Run) {
 		if j := strings.IndexByte(msg, '\n'); j >= 0 {
 			msg = msg[:j]
 		}
-		shape := c.Name
-		if j := strings.IndexByte(shape, ':'); j >= 0 {
-			shape = shape[:j]
-		}
-		if j := strings.LastIndexByte(shape, '-'); j >= 0 && strings.Contains(shape, "claim") {
-			shape = shape[:j]
-		}
 		r.Eval(1)
-		r.Violationf("alloc:process-killed:"+shape, c25case{Bytes: c.Hex}, "%s: decoding a %d-byte input killed the worker (3 GB address-space limit): %s", c.Name, len(c.Hex)/2, msg)
-		r.Capped("allocation cases after " + c.Name + " not run (worker died)")
+		r.Violationf("alloc:process-killed", c25case{Bytes: last, Comment: "last input (or, for mutations, encoding followed by the position byte) announced by the worker"},
+			"decoding killed the worker that runs under a 3 GB address-space limit: %s (%v); last input announced: %s", msg, werr, last)
+		r.Capped("worker died; remaining mutation / allocation cases of this shard not run")
 	}
 }
 
@@ -612,19 +704,19 @@ func TestVerif_C25(t *testing.T) {
 	log.InitLog(log.MaxLevelLog)
 	r.Rule("(a) every nested list up to depth 3 / width 3 over the codec's value types (one value per type, plus boundary integers +-2^127, empty values, Go int/int64 forms) " +
 		"through EncodeValue/EncodeList -> DecodeValue, DeserializeCallParam, parseNotify, compared structurally; out-of-range integers must be refused; " +
-		"(b) DecodeValue on every byte string up to length L and on every single-byte mutation / truncation / size-field substitution of 16 valid encodings, accepted values re-encoded and compared (canonical form); " +
-		"DeserializeCallParam / DeserializeNotify on framed and raw inputs must agree with DecodeValue; (c) claimed sizes up to 2^32-1 with short bodies decoded in a 3 GB-limited worker with TotalAlloc measured; " +
-		"distinct = (operation, type/shape, outcome) classes")
+		"(b) DecodeValue on every byte string up to length L (in-process) and, in a worker under a 3 GB address-space limit, on every single-byte mutation / truncation / size-field substitution of 16 valid encodings, " +
+		"accepted values re-encoded and compared; DeserializeCallParam / DeserializeNotify on framed, wrongly framed and raw inputs must agree with DecodeValue; " +
+		"(c) claimed sizes up to 2^32-1 with short bodies with TotalAlloc measured (bound: 64 KiB + 256 B per input byte); distinct = (operation, type/shape, outcome) classes")
 	maxLen := r.Pick(3, 4)
 	r.Bound(fmt.Sprintf("lists: depth<=3, width<=3 (alphabet narrowing with depth); byte strings<=%d", maxLen))
 
 	var rc c25case
 	if r.ReplayCase(&rc) && rc.Bytes != "" {
 		data, _ := hex.DecodeString(strings.SplitN(rc.Bytes, "..", 2)[0])
-		a := &c25acc{r: r, classes: map[string]int64{}}
+		a := c25newAcc(r)
 		c25decode(a, data, "replay")
 		c25framed(a, data)
-		a.flush()
+		a.flush(r)
 		return
 	}
 
@@ -701,7 +793,7 @@ func TestVerif_C25(t *testing.T) {
 	}
 
 	// (b) byte strings
-	a := &c25acc{r: r, classes: map[string]int64{}}
+	a := c25newAcc(r)
 	c25decode(a, []byte{}, "short")
 	c25framed(a, []byte{})
 	buf := make([]byte, 0, 8)
@@ -719,9 +811,7 @@ func TestVerif_C25(t *testing.T) {
 			c25framed(a, append(buf[:0], 'e', 'v', 't', 0, byte(b0), byte(b1)))
 			for b2 := 0; b2 < 256; b2++ {
 				c25decode(a, append(buf[:0], byte(b0), byte(b1), byte(b2)), "short")
-				if b0 == int(VERSION) {
-					c25framed(a, append(buf[:0], byte(b0), byte(b1), byte(b2)))
-				}
+				c25framed(a, append(buf[:0], byte(b0), byte(b1), byte(b2)))
 				if maxLen >= 4 {
 					for b3 := 0; b3 < 256; b3++ {
 						c25decode(a, append(buf[:0], byte(b0), byte(b1), byte(b2), byte(b3)), "short")
@@ -761,12 +851,10 @@ func TestVerif_C25(t *testing.T) {
 			}
 		}
 	}
-	a.flush()
+	a.flush(r)
 
-	// (c) allocation under claimed sizes
-	if r.R.Shard == 0 {
-		c25alloc(r)
-	}
+	// (b2)+(c) mutations of valid encodings and claimed sizes: in the memory-limited worker
+	c25worker(r)
 
 	if r.R.NShards == 1 && !r.R.CapHit {
 		for _, c := range []string{"roundtrip:ok:list-depth3", "roundtrip:ok:int", "decode:ok:list-depth1", "decode:err:format", "decode:err:type",
